@@ -76,6 +76,7 @@ class Ctx:
         self.lemmas = []
         self.sitectr = itertools.count()
         self.notes = []
+        self.approx = False   # True once the path went through a havoc / an under-determined callee contract
 
     # -- path condition
     def assume(self, c):
@@ -147,6 +148,7 @@ class Ctx:
         name = "%s/%s" % (self.fname, label)
         ob = Obligation(name, list(self.pc), goal, kind, list(self.taken), meta)
         ob.lemmas = list(self.lemmas)
+        ob.approx = self.approx
         self.obls.append(ob)
         # subsequent code may rely on it (it is checked separately)
         if goal is not True and goal is not False and O.is_sym(goal) and kind not in ('ensures', 'raises', 'accepts', 'exc-post'):
@@ -755,6 +757,7 @@ class Frame:
         for label, f in inv_at(0, 'init'):
             ctx.oblige("%s/init:%s" % (lname, label), f, 'loop-init')
         # 2. havoc
+        ctx.approx = True
         it = O.fresh_int('it')
         spec.it = it
         ctx.assume(it >= 0)
